@@ -43,6 +43,9 @@ type SchedResult struct {
 	Steps      int64
 	Trace      []Switch
 	Preempts   int
+	// Truncated: the switch trace is incomplete; the run can still be repeated exactly from
+	// its scheduler seed (every decision is drawn from it), but not from the explicit list
+	Truncated bool
 	Blocked    int
 	Hash       uint64
 	Deadlock   bool
@@ -60,6 +63,7 @@ type sched struct {
 	nextSwitch int64
 	ei         int
 	trace      []Switch
+	truncated  bool // more switches happened than the pre-allocated trace can hold
 	hash       uint64
 	preempts   int
 	blocked    int
@@ -142,6 +146,8 @@ func (s *sched) record(kind string, from, to *Ctx, site string) {
 	s.hash = hashStr(s.hash, site)
 	if len(s.trace) < cap(s.trace) {
 		s.trace = append(s.trace, Switch{Step: s.steps, From: f, To: t, Site: site, Kind: kind})
+	} else {
+		s.truncated = true
 	}
 }
 
@@ -374,7 +380,7 @@ func RunTasks(cfg SchedCfg, ctxs []*Ctx, fns []func()) (SchedResult, []TaskResul
 	if len(ctxs) != len(fns) || len(fns) == 0 || len(fns) > 64 {
 		panic("simrt: bad RunTasks arguments")
 	}
-	s := &sched{cfg: cfg, tasks: ctxs, r: NewRng(cfg.Seed), r2: NewRng(Mix(cfg.Seed, 0xf1)), trace: make([]Switch, 0, 1<<16), allDone: make(chan struct{}), release: make(chan struct{})}
+	s := &sched{cfg: cfg, tasks: ctxs, r: NewRng(cfg.Seed), r2: NewRng(Mix(cfg.Seed, 0xf1)), trace: make([]Switch, 0, 1<<17), allDone: make(chan struct{}), release: make(chan struct{})}
 	res := make([]TaskResult, len(fns))
 	var wg sync.WaitGroup
 	for i, c := range ctxs {
@@ -394,7 +400,7 @@ func RunTasks(cfg SchedCfg, ctxs []*Ctx, fns []func()) (SchedResult, []TaskResul
 	startSched(s)
 	wg.Wait()
 	stopSched()
-	out := SchedResult{Steps: s.steps, Trace: s.trace, Preempts: s.preempts, Blocked: s.blocked, Hash: s.hash, Deadlock: s.deadlock, Overrun: s.overrun}
+	out := SchedResult{Steps: s.steps, Trace: s.trace, Preempts: s.preempts, Blocked: s.blocked, Hash: s.hash, Deadlock: s.deadlock, Overrun: s.overrun, Truncated: s.truncated}
 	for _, c := range ctxs {
 		out.TaskSteps = append(out.TaskSteps, c.Steps)
 	}
